@@ -827,7 +827,12 @@ class _ModRenderer:
                 mark = len(s.lines)
                 # known finding init-forwarded-annotation: no name shared with a class-level (annotated) attribute
                 suffix = "_i" if "init-forwarded-annotation" in _CTX["steer"] else ""
-                self.attr(indent + 1, ["attr", sa[0], sa[1], sa[2], sa[3]], target="self." + sa[0] + suffix)
+                sdoc = sa[3]
+                if sdoc is not None and "parsed-annotation-scope" in _CTX["steer"]:
+                    # known finding parsed-annotation-scope: docstrings of attributes assigned in `__init__` have no
+                    # sections (a section item without type would borrow the annotation of the attribute)
+                    sdoc = {**sdoc, "sections": []}
+                self.attr(indent + 1, ["attr", sa[0], sa[1], sa[2], sdoc], target="self." + sa[0] + suffix)
                 wrote = wrote or len(s.lines) > mark
             for inner in spec.get("inner", ()):
                 if "init-param-names" in _CTX["steer"] and inner[1] in EXPR_NAMES:
